@@ -118,6 +118,9 @@ structure Cfg where
   expInclusive : Bool
   mark : MarkKind → MarkShape
   ttl : Kind → Nat
+  /-- the handler of this kind calls a collaborator between accepting the secret and returning (observed at handler
+      level only: the replicated storage-level consumers have none) -/
+  ext : BurnKind → Bool := fun _ => false
 
 /-- a request presenting the burn-on-use secret `id` -/
 structure BurnReq where
@@ -149,6 +152,9 @@ inductive BurnPc where
   | wantLock               -- blocked on the session database mutex
   | atCall                 -- parked before the first underlying call of GetAndDelete (Get, or the single atomic call)
   | atDel (v : String)     -- GetAndDelete: Get returned v, parked before the underlying Delete
+  | atExt (o : Outcome)    -- the secret has been consumed and the request accepted, the handler is still in flight: parked
+                           -- before the call of a collaborator that follows (request object: the signer; code: storing the
+                           -- access token).  No effect on the one-time stores.
   | atBurn (o : Outcome)   -- result decided, parked before the unconditional Delete (code: deferred; vpNonce: burn all)
   | done (o : Outcome)
   deriving DecidableEq, Repr, Inhabited
@@ -197,11 +203,15 @@ def verdict (r : BurnReq) (v : Option String) : Outcome :=
     | .redirect => .ok
     | _ => if x ≠ r.want then .mismatch else if r.post then .ok else .postCheck
 
-/-- after GetAndDelete returned: `code` still has its deferred Delete to run -/
-def afterGad (r : BurnReq) (v : Option String) : BurnPc :=
+/-- where a request goes once its result `o` is final: `code` still has its deferred Delete to run -/
+def finishBurn (r : BurnReq) (o : Outcome) : BurnPc :=
   match r.kind with
-  | .code => .atBurn (verdict r v)
-  | _ => .done (verdict r v)
+  | .code => .atBurn o
+  | _ => .done o
+
+/-- after GetAndDelete returned: an accepted request may still call a collaborator before it returns -/
+def afterGad (cfg : Cfg) (r : BurnReq) (v : Option String) : BurnPc :=
+  if verdict r v = .ok && cfg.ext r.kind then .atExt .ok else finishBurn r (verdict r v)
 
 def Cfg.gadLocks (cfg : Cfg) : Bool := cfg.gad = .locked
 def Cfg.markLocks (cfg : Cfg) (m : MarkKind) : Bool := cfg.mark m = .locked
@@ -224,18 +234,19 @@ def stepBurn (cfg : Cfg) (st : Store) (now : Nat) (lock : Option Nat) (i : Nat) 
      | some _ => (.wantLock, st, lock))
   | .atCall =>
     -- a failing store call makes GetAndDelete return that error: nothing is handed out, nothing is deleted
-    if r.failGet then (afterGad r none, st, unlock cfg.gadLocks lock) else
+    if r.failGet then (afterGad cfg r none, st, unlock cfg.gadLocks lock) else
     (match cfg.gad with
-     | .singleCall => (afterGad r (stGet cfg.expInclusive st now k), stErase st k, lock)
+     | .singleCall => (afterGad cfg r (stGet cfg.expInclusive st now k), stErase st k, lock)
      | _ =>
        match stGet cfg.expInclusive st now k with
        | some v => (.atDel v, st, lock)
-       | none => (afterGad r none, st, unlock cfg.gadLocks lock))
+       | none => (afterGad cfg r none, st, unlock cfg.gadLocks lock))
   | .atDel v =>
-    if r.failDel then (afterGad r none, st, unlock cfg.gadLocks lock) else
+    if r.failDel then (afterGad cfg r none, st, unlock cfg.gadLocks lock) else
     let missing := (stGet cfg.expInclusive st now k).isNone
     let err := cfg.gadRawDelete && cfg.strictDelete && missing
-    (afterGad r (if err then none else some v), stErase st k, unlock cfg.gadLocks lock)
+    (afterGad cfg r (if err then none else some v), stErase st k, unlock cfg.gadLocks lock)
+  | .atExt o => (finishBurn r o, st, lock)
   | .atBurn o => (.done o, if r.failDel then st else stErase st k, lock)
   | .done o => (.done o, st, lock)
 
@@ -324,6 +335,7 @@ def Thread.won (t : Thread) : Bool := t.outcome = some .ok
 
 /-- GetAndDelete handed the stored value to this request -/
 def Thread.took : Thread → Bool
+  | .burn _ (.atExt o) _ => o.took
   | .burn _ (.atBurn o) _ => o.took
   | .burn _ (.done o) _ => o.took
   | _ => false
